@@ -136,7 +136,84 @@ def cases(tier, seed):
         if k not in seen:
             seen.add(k)
             out.append(r)
+    # histories: every sequence of <= 3 calls in ONE process over {directory A, directory B, no directory}
+    # (module-level state of the driver must not leak from one call into the next)
+    for L in ((1, 2, 3) if tier == "quick" else (1, 2, 3, 4)):
+        for seq in itertools.product(("A", "B", "-"), repeat=L):
+            out.append(dict(kind="history", seq="".join(seq)))
     return out
+
+
+def _pristine_module_state():
+    """Every case starts from the module-level state a fresh interpreter has (cases share worker processes; what one
+    call leaks into the next is the subject of the `history` cases, not of the order in which cases were scheduled)."""
+    import sys
+    import nifty.cl  # noqa
+    m = sys.modules.get("nifty.cl.minimization.optimize_kl")
+    for name in ("_output_directory", "_save_strategy"):
+        if m is not None and hasattr(m, name):
+            setattr(m, name, None)
+
+
+def _tree_bytes(root):
+    out = {}
+    for d, _, files in os.walk(root):
+        for f in files:
+            p = os.path.join(d, f)
+            out[os.path.relpath(p, root)] = open(p, "rb").read()
+    return out
+
+
+def _run_history(case):
+    """Calls of optimize_kl one after the other in one process: each must behave as if it were the first."""
+    import nifty.cl as ift
+    from vf import models_cl
+    models_cl.quiet()
+    lh = models_cl.two_key_model()
+    dom = lh.domain
+    pos = ift.MultiField.from_dict({"a": ift.makeField(dom["a"], np.array([0.1, -0.2, 0.3])),
+                                    "b": ift.makeField(dom["b"], np.array([0.2, 0.0, -0.1]))})
+    tmp = tempfile.mkdtemp(prefix="c27h_")
+    dirs = {"A": os.path.join(tmp, "A"), "B": os.path.join(tmp, "B"), "-": None}
+    rnd = ift.random
+    state0 = rnd.getState()
+    ref = None
+    try:
+        for step, which in enumerate(case["seq"]):
+            odir = dirs[which]
+            models_cl.reset_random()
+            mini, ic_samp = models_cl.minimizers(2)
+            before = {k: _tree_bytes(v) for k, v in dirs.items() if v is not None and os.path.isdir(v)}
+            try:
+                sl = ift.optimize_kl(lh, 2, 2, mini, ic_samp, output_directory=odir, initial_position=pos, comm=None)
+            except Exception as e:
+                return bad("call %d of the sequence %s (output directory %s) raised %s: %s" % (
+                    step + 1, case["seq"], which, type(e).__name__, str(e)[:150]),
+                    finding_key="history|raises|%s|after-%s" % (which, case["seq"][:step][-1:] or "none"))
+            dig = models_cl.samplelist_digest(sl)
+            if ref is None:
+                ref = dig
+            elif dig != ref:
+                return bad("call %d of the sequence %s returns other samples than the same call made first" % (
+                    step + 1, case["seq"]), finding_key="history|result-differs|%s" % which)
+            for k, v in dirs.items():
+                if v is None or k == which:
+                    continue
+                now = _tree_bytes(v) if os.path.isdir(v) else {}
+                if now != before.get(k, {}):
+                    ch = sorted(set(now) ^ set(before.get(k, {})) | {f for f in now if before.get(k, {}).get(f) != now[f]})
+                    return bad("call %d of the sequence %s (output directory %s) modified files of the EARLIER output "
+                               "directory %s: %s" % (step + 1, case["seq"], which, k, ch[:4]),
+                               finding_key="history|writes-into-earlier-directory|now=%s" % which)
+            if odir is not None:
+                if open(os.path.join(odir, "last_finished_iteration")).read().strip() != "1":
+                    return bad("marker of call %d wrong" % (step + 1), finding_key="history|marker")
+                if "latest.0.pickle" not in os.listdir(os.path.join(odir, "pickle")):
+                    return bad("samples of call %d missing" % (step + 1), finding_key="history|files-missing")
+    finally:
+        rnd.setState(state0)
+        shutil.rmtree(tmp, ignore_errors=True)
+    return ok(nontrivial=len(set(case["seq"])) > 1, outcome="history|%s" % ("mixed" if len(set(case["seq"])) > 1 else "same"))
 
 
 def run(case):
@@ -146,6 +223,9 @@ def run(case):
     matplotlib.use("Agg")
     import nifty.cl as ift
     from vf import models_cl
+    _pristine_module_state()
+    if case.get("kind") == "history":
+        return _run_history(case)
     models_cl.quiet()
     models_cl.reset_random()
     c = case
